@@ -1,9 +1,10 @@
 //! Registry: which families of cases make up each check at each tier, and replay dispatch.
-use crate::alphabet::{Chars, Soup, CONTEXTS, GAPS3, GAPS5, SIGMA};
+use crate::alphabet::{Chars, Soup, Words, CONTEXTS, GAPS3, GAPS5, SIGMA, SIGMA_SMALL};
 use crate::cfg::{self, Cfg, C_QUICK};
 use crate::grammar::Grammar;
 use crate::oracles as o;
 use crate::oracles2 as o2;
+use crate::oracles3 as o3;
 use crate::progs::{self, pf, sf, RelayoutOpts, Seed, VariantOpts};
 use crate::runner::{Ctx, Family};
 use std::sync::Arc;
@@ -51,6 +52,99 @@ impl TextSource for Chars {
     }
     fn edges(&self) -> u64 {
         self.n as u64
+    }
+}
+
+impl TextSource for Words {
+    fn name(&self) -> String {
+        format!("words(len<={},align<={},delims={},specials={})", self.max_len, self.max_align, crate::alphabet::WORD_DELIMS.len(), crate::alphabet::WORD_SPECIALS.len())
+    }
+    fn len(&self) -> u64 {
+        Words::len(self)
+    }
+    fn get(&self, idx: u64, buf: &mut String) {
+        Words::get(self, idx, buf);
+    }
+}
+
+/// the multi-line literal shapes of C12 as plain texts (for the other properties)
+pub struct LitTexts(pub o3::C12Family);
+impl TextSource for LitTexts {
+    fn name(&self) -> String {
+        format!("ml-literals(lines<={})", self.0.max_lines)
+    }
+    fn len(&self) -> u64 {
+        use crate::runner::Family;
+        self.0.len()
+    }
+    fn get(&self, idx: u64, buf: &mut String) {
+        *buf = self.0.build(idx).0;
+    }
+}
+fn lit_texts(max_lines: usize) -> LitTexts {
+    LitTexts(o3::C12Family { max_lines, cfgs: vec![cfg::DEFAULT], quotes: vec![3, 5], positions: vec![0, 4] })
+}
+
+/// all case patterns of every keyword (2^len each), followed by a delimiter
+pub struct KeywordCases;
+impl KeywordCases {
+    fn words() -> Vec<&'static str> {
+        crate::refscan::PURE.iter().chain(crate::refscan::CONTEXTUAL.iter()).copied().collect()
+    }
+}
+impl TextSource for KeywordCases {
+    fn name(&self) -> String {
+        "keywords-x-all-case-patterns".into()
+    }
+    fn len(&self) -> u64 {
+        Self::words().iter().map(|w| 1u64 << w.len()).sum()
+    }
+    fn get(&self, mut idx: u64, buf: &mut String) {
+        buf.clear();
+        for w in Self::words() {
+            let n = 1u64 << w.len();
+            if idx < n {
+                for (k, ch) in w.chars().enumerate() {
+                    buf.push(if idx >> k & 1 == 1 { ch.to_ascii_uppercase() } else { ch });
+                }
+                buf.push_str(" x.");
+                for (k, ch) in w.chars().enumerate() {
+                    buf.push(if idx >> k & 1 == 1 { ch.to_ascii_uppercase() } else { ch });
+                }
+                return;
+            }
+            idx -= n;
+        }
+    }
+}
+
+/// keyword near misses: one char substituted / inserted / deleted, and all [a-z]^{<=n}
+pub struct NearMisses;
+impl NearMisses {
+    fn all() -> Vec<String> {
+        let mut out = vec![];
+        let letters = "abcdefghijklmnopqrstuvwxyz_0";
+        for w in KeywordCases::words() {
+            let cs: Vec<char> = w.chars().collect();
+            for i in 0..cs.len() {
+                let mut d = cs.clone();
+                d.remove(i);
+                out.push(d.iter().collect());
+                for l in letters.chars() {
+                    let mut sub = cs.clone();
+                    sub[i] = l;
+                    out.push(sub.iter().collect());
+                }
+            }
+            for i in 0..=cs.len() {
+                for l in letters.chars() {
+                    let mut ins = cs.clone();
+                    ins.insert(i, l);
+                    out.push(ins.iter().collect());
+                }
+            }
+        }
+        out
     }
 }
 
@@ -151,6 +245,13 @@ fn or_c08(eof_clause: bool) -> TextOracle {
 fn or_c13() -> TextOracle {
     Box::new(|x, _c, ctx| o::c13(x, ctx))
 }
+/// lexer vs R, and additionally both identifier-scanning routines (hook) vs R at every word start
+fn or_c13_words() -> TextOracle {
+    Box::new(|x, _c, ctx| {
+        o::c13(x, ctx);
+        o::c13_ident_routines(x, ctx);
+    })
+}
 fn or_c14(well_formed: bool) -> TextOracle {
     Box::new(move |x, _c, ctx| o::c14(x, &o::C14Opts { well_formed }, ctx))
 }
@@ -163,6 +264,168 @@ fn or_c04() -> TextOracle {
     })
 }
 
+
+
+/// deliberately badly formatted rendering: upper-cased keywords, irregular gaps
+fn ugly(toks: &[crate::grammar::GTok]) -> Vec<String> {
+    let frozen = crate::layout::frozen_gaps(toks);
+    let gaps = [" ", "   ", "\n", "\n\t ", " \t", "\n\n      "];
+    let mut out = vec![];
+    for (i, t) in toks.iter().enumerate() {
+        let mut s = String::new();
+        if i > 0 {
+            if frozen[i] || t.hard_nl {
+                s.push_str(if t.hard_nl { "\n" } else { " " });
+            } else {
+                s.push_str(gaps[i % gaps.len()]);
+            }
+        }
+        if crate::refscan::keyword_capable(&t.text) && !frozen[i] {
+            s.push_str(&t.text.to_ascii_uppercase());
+        } else {
+            s.push_str(&t.text);
+        }
+        out.push(s);
+    }
+    out
+}
+
+fn c07_regions(g: &Arc<Grammar>, d: usize, cfgs: &[Cfg], all_spellings: bool) -> Box<dyn Family> {
+    pf(
+        "c07regions",
+        g,
+        d,
+        cfgs,
+        Box::new(move |_g, toks, c, ctx| {
+            let parts = ugly(toks);
+            let n = parts.len();
+            let frozen = crate::layout::frozen_gaps(toks);
+            let nsp = if all_spellings { o3::TOGGLE_OFF.len() } else { 3 };
+            let mut first = true;
+            let mut depth = 0i32;
+            let mut boundary = vec![false; n + 1];
+            boundary[0] = true;
+            for (i, t) in toks.iter().enumerate() {
+                match t.text.as_str() {
+                    "(" | "[" | "<" => depth += 1,
+                    ")" | "]" | ">" => depth -= 1,
+                    _ => {}
+                }
+                boundary[i + 1] = t.text == ";" && depth == 0;
+            }
+            for i in 0..=n {
+                if i < n && frozen[i] {
+                    continue;
+                }
+                // j == n + 1 means: no closing toggle
+                for j in i..=(n + 1) {
+                    if j < n && frozen[j] {
+                        continue;
+                    }
+                    for sp in 0..nsp {
+                        let mut x = String::new();
+                        for p in &parts[..i] {
+                            x.push_str(p);
+                        }
+                        let prefix_len = x.len();
+                        let block = !o3::TOGGLE_OFF[sp].starts_with("//");
+                        // block-comment spellings are also tried inline
+                        let mut own_line = true;
+                        if block && (i + j + sp) % 2 == 1 {
+                            own_line = false;
+                            x.push(' ');
+                            x.push_str(o3::TOGGLE_OFF[sp]);
+                            x.push(' ');
+                        } else {
+                            x.push('\n');
+                            x.push_str(o3::TOGGLE_OFF[sp]);
+                            x.push('\n');
+                        }
+                        let jj = j.min(n);
+                        for p in &parts[i..jj] {
+                            x.push_str(p);
+                        }
+                        if j <= n {
+                            if block && (i + j + sp) % 3 == 1 {
+                                x.push(' ');
+                                x.push_str(o3::TOGGLE_ON[sp]);
+                                x.push(' ');
+                            } else {
+                                x.push_str("  \n");
+                                x.push_str(o3::TOGGLE_ON[sp]);
+                                x.push('\n');
+                            }
+                            for p in &parts[jj..] {
+                                x.push_str(p);
+                            }
+                        }
+                        if !first {
+                            ctx.sub_eval();
+                        }
+                        first = false;
+                        // (an inline toggle comment lengthens the last line of the prefix)
+                        let pl = if boundary[i] && own_line { Some(prefix_len) } else { None };
+                        o3::c07(&x, pl, c, ctx);
+                    }
+                }
+                // a comment that is not a toggle: nothing may be kept verbatim
+                for (k, nt) in o3::NON_TOGGLES.iter().enumerate() {
+                    if (i + k) % 3 != 0 && !all_spellings {
+                        continue;
+                    }
+                    let mut x = String::new();
+                    for p in &parts[..i] {
+                        x.push_str(p);
+                    }
+                    x.push('\n');
+                    x.push_str(nt);
+                    x.push('\n');
+                    for p in &parts[i..] {
+                        x.push_str(p);
+                    }
+                    ctx.sub_eval();
+                    o3::c07(&x, None, c, ctx);
+                }
+            }
+        }),
+    )
+}
+
+const ASM_LINES: [&str; 15] = [
+    "mov eax, 1", "@@l:", "@l: ret", "MOV  EAX ,[EBX+4]", "db 'a', \"b\", 0FFh, 101b", "nop; nop", "// c",
+    "{c} nop", "mov al, 'x' // c", "push   eax  ", "lock cmpxchg [ecx], edx", "jmp @@l", "mov eax, offset x",
+    "dw 1, 2 ; x", "BEGIN",
+];
+
+fn c07_asm_texts(two_lines: bool) -> Vec<String> {
+    let mut out = vec![];
+    let indents = ["", "    ", "\t"];
+    let nls = ["\n", "\r\n"];
+    let n = ASM_LINES.len();
+    let count = if two_lines { n + n * n } else { n };
+    for k in 0..count {
+        let lines: Vec<&str> = if k < n { vec![ASM_LINES[k]] } else { vec![ASM_LINES[(k - n) / n], ASM_LINES[(k - n) % n]] };
+        for ind in indents {
+            for nl in nls {
+                for shape in 0..3 {
+                    let mut body = String::new();
+                    for l in &lines {
+                        body.push_str(ind);
+                        body.push_str(l);
+                        body.push_str(nl);
+                    }
+                    let x = match shape {
+                        0 => format!("procedure P;{nl}begin{nl}  A:=1;{nl}  ASM{nl}{body}  END;{nl}  B:=2;{nl}end;{nl}"),
+                        1 => format!("procedure P; assembler;{nl}asm{nl}{body}end;{nl}"),
+                        _ => format!("begin if a then asm{nl}{body}end else asm {} end; end.", lines[0]),
+                    };
+                    out.push(x);
+                }
+            }
+        }
+    }
+    out
+}
 
 const W_QUICK: [u32; 6] = [16, 24, 30, 60, 120, 200];
 const W_FULL: [u32; 13] = [10, 16, 20, 24, 30, 40, 50, 60, 80, 100, 120, 160, 200];
@@ -231,6 +494,68 @@ fn f_c13(x: &str, c: &Cfg, ctx: &mut Ctx) {
 fn f_c09(x: &str, c: &Cfg, ctx: &mut Ctx) {
     o2::c09(x, c, ctx);
 }
+/// all multi-line literals of x obey the indentation rule (so x can be well-formed)
+fn literals_valid(x: &str) -> bool {
+    crate::refscan::scan(x).iter().all(|t| {
+        t.kind != crate::refscan::Kind::Text(crate::refscan::TextKind::MultiLine) || o2::ml_lit(t.text(x)).value.is_some()
+    })
+}
+fn wf_lits(f: fn(&str, &Cfg, &mut Ctx)) -> TextOracle {
+    Box::new(move |x, c, ctx| {
+        if literals_valid(x) {
+            f(x, c, ctx)
+        } else {
+            ctx.count("skipped-invalid-literal");
+        }
+    })
+}
+
+/// every prefix, every single-token deletion and every adjacent-token swap of every seed
+fn seed_mutations(label: &str, seeds: &Arc<Vec<Seed>>, cfgs: &[Cfg], f: fn(&str, &Cfg, &mut Ctx)) -> Box<dyn Family> {
+    sf(
+        label,
+        seeds,
+        cfgs,
+        Box::new(move |s, c, ctx| {
+            let x = &s.text;
+            let toks = crate::refscan::scan(x);
+            let n = toks.len() - 1;
+            let piece = |i: usize| &x[toks[i].ws..toks[i].end];
+            let mut first = true;
+            let mut run = |t: &str, ctx: &mut Ctx| {
+                if !first {
+                    ctx.sub_eval();
+                }
+                first = false;
+                f(t, c, ctx);
+            };
+            for i in 0..=n {
+                run(&x[..toks[i].ws], ctx);
+            }
+            for i in 0..n {
+                let mut t = String::with_capacity(x.len());
+                t.push_str(&x[..toks[i].ws]);
+                t.push_str(&x[toks[i].end..]);
+                run(&t, ctx);
+            }
+            for i in 0..n.saturating_sub(1) {
+                let mut t = String::with_capacity(x.len());
+                t.push_str(&x[..toks[i].ws]);
+                t.push_str(piece(i + 1));
+                t.push_str(piece(i));
+                t.push_str(&x[toks[i + 1].end..]);
+                run(&t, ctx);
+            }
+        }),
+    )
+}
+fn f_c04(x: &str, c: &Cfg, ctx: &mut Ctx) {
+    let out = ctx.fmt(c, x);
+    if out != x {
+        ctx.nontrivial();
+    }
+}
+
 fn vo_base() -> VariantOpts {
     vopts(false, false, false)
 }
@@ -377,6 +702,7 @@ pub fn families(check: &str, tier: &str) -> Vec<Box<dyn Family>> {
                     tf("c01", soup(2, GAPS5, CONTEXTS), &C_QUICK, or_c01()),
                     tf("c01", Chars { n: 3 }, &C_QUICK[..2], or_c01()),
                     prog_variants("c01", &g(1), 1, &C_QUICK[..2], vo_cd, f_c01),
+                    tf("c01", lit_texts(2), &C_QUICK[..2], or_c01()),
                 ]
             } else {
                 vec![
@@ -385,6 +711,8 @@ pub fn families(check: &str, tier: &str) -> Vec<Box<dyn Family>> {
                     tf("c01", Chars { n: 4 }, &C_QUICK[..2], or_c01()),
                     prog_variants("c01", &g(2), 2, &C_QUICK, vo_cd, f_c01),
                     seed_texts("c01", &all_seeds(), &full, f_c01),
+                    tf("c01", lit_texts(2), &C_QUICK, or_c01()),
+                    seed_mutations("c01", &all_seeds(), &C_QUICK[..2], f_c01),
                 ]
             }
         }
@@ -394,6 +722,7 @@ pub fn families(check: &str, tier: &str) -> Vec<Box<dyn Family>> {
                     prog_variants("c02", &g(2), 2, &C_QUICK, vo_base, f_c02),
                     prog_variants("c02", &g(1), 1, &C_QUICK[..3], vo_all, f_c02),
                     seed_texts("c02", &wf_seeds(), &C_QUICK, f_c02),
+                    tf("c02", lit_texts(2), &C_QUICK[..2], wf_lits(f_c02)),
                 ]
             } else {
                 vec![
@@ -401,6 +730,7 @@ pub fn families(check: &str, tier: &str) -> Vec<Box<dyn Family>> {
                     prog_variants("c02", &g(2), 2, &C_QUICK, vo_all, f_c02),
                     prog_variants("c02", &g(2), 2, &full, vo_base, f_c02),
                     seed_texts("c02", &wf_seeds(), &full, f_c02),
+                    tf("c02", lit_texts(2), &C_QUICK, wf_lits(f_c02)),
                 ]
             }
         }
@@ -410,6 +740,7 @@ pub fn families(check: &str, tier: &str) -> Vec<Box<dyn Family>> {
                     prog_variants("c03", &g(2), 2, &C_QUICK, vo_base, f_c03),
                     prog_variants("c03", &g(1), 1, &C_QUICK[..3], vo_all, f_c03),
                     seed_texts("c03", &wf_seeds(), &C_QUICK, f_c03),
+                    tf("c03", lit_texts(2), &C_QUICK[..2], wf_lits(f_c03)),
                 ]
             } else {
                 vec![
@@ -417,6 +748,7 @@ pub fn families(check: &str, tier: &str) -> Vec<Box<dyn Family>> {
                     prog_variants("c03", &g(2), 2, &C_QUICK, vo_all, f_c03),
                     prog_variants("c03", &g(2), 2, &full, vo_base, f_c03),
                     seed_texts("c03", &wf_seeds(), &full, f_c03),
+                    tf("c03", lit_texts(2), &C_QUICK, wf_lits(f_c03)),
                 ]
             }
         }
@@ -425,11 +757,18 @@ pub fn families(check: &str, tier: &str) -> Vec<Box<dyn Family>> {
                 vec![
                     tf("c04", soup(2, GAPS5, CONTEXTS), &C_QUICK[..2], or_c04()),
                     tf("c04", soup(3, &[" "], &["%"]), &one, or_c04()),
+                    tf("c04", Soup { k: 4, sigma: &SIGMA_SMALL[..36], gaps: &[" "], contexts: &["%"] }, &one, or_c04()),
+                    tf("c04", lit_texts(2), &C_QUICK[..2], or_c04()),
+                    tf("c04", Chars { n: 3 }, &one, or_c04()),
+                    seed_mutations("c04", &all_seeds(), &C_QUICK[1..2], f_c04),
                 ]
             } else {
                 vec![
                     tf("c04", soup(3, GAPS3, CONTEXTS), &C_QUICK[..3], or_c04()),
                     tf("c04", Chars { n: 4 }, &C_QUICK[..2], or_c04()),
+                    tf("c04", Soup { k: 4, sigma: SIGMA_SMALL, gaps: &[" ", "\n"], contexts: &["%", "begin % end", "type T = class % end;"] }, &C_QUICK[..2], or_c04()),
+                    tf("c04", lit_texts(3), &C_QUICK, or_c04()),
+                    seed_mutations("c04", &all_seeds(), &C_QUICK, f_c04),
                 ]
             }
         }
@@ -461,6 +800,91 @@ pub fn families(check: &str, tier: &str) -> Vec<Box<dyn Family>> {
                 ]
             }
         }
+        "C07" => {
+            let asm_f = |two: bool, cfgs: &[Cfg]| {
+                tf(
+                    "c07asm",
+                    Texts { name: "asm-bodies".into(), items: c07_asm_texts(two) },
+                    cfgs,
+                    Box::new(|x, c, ctx| o3::c07(x, None, c, ctx)),
+                )
+            };
+            let seeds_f = |cfgs: &[Cfg]| {
+                seed_texts("c07seeds", &all_seeds(), cfgs, |x, c, ctx| {
+                    if x.to_ascii_lowercase().contains("pasfmt") || x.to_ascii_lowercase().contains("asm") {
+                        o3::c07(x, None, c, ctx)
+                    }
+                })
+            };
+            if quick {
+                vec![c07_regions(&g(1), 1, &C_QUICK[..2], false), asm_f(false, &C_QUICK), seeds_f(&C_QUICK)]
+            } else {
+                vec![
+                    c07_regions(&g(1), 1, &C_QUICK, true),
+                    c07_regions(&g(2), 2, &C_QUICK[1..2], false),
+                    asm_f(true, &C_QUICK),
+                    seeds_f(&full),
+                ]
+            }
+        }
+        "C12" => {
+            let base = [
+                cfg::DEFAULT,
+                cfg::DEFAULT.with(|c| { c.fms = false; c.le = cfg::Le::Crlf; }),
+                cfg::DEFAULT.with(|c| { c.tabs = true; c.le = cfg::Le::Crlf; c.wrap = 30; }),
+                cfg::DEFAULT.with(|c| { c.wrap = 30; c.tw = 4; c.ci = 1; }),
+                cfg::DEFAULT.with(|c| { c.tabs = true; c.fms = false; }),
+                cfg::DEFAULT.with(|c| { c.le = cfg::Le::Crlf; c.begin = cfg::BeginStyle::AlwaysWrap; c.tw = 3; }),
+            ];
+            if quick {
+                vec![Box::new(o3::C12Family { max_lines: 2, cfgs: base[..4].to_vec(), quotes: vec![3, 5], positions: vec![0, 2, 4, 5] })]
+            } else {
+                vec![
+                    Box::new(o3::C12Family { max_lines: 2, cfgs: base.to_vec(), quotes: vec![3, 5, 7], positions: (0..o3::C12_POSITIONS).collect() }),
+                    Box::new(o3::C12Family { max_lines: 3, cfgs: base[..3].to_vec(), quotes: vec![3], positions: vec![0, 4] }),
+                ]
+            }
+        }
+        "C15" => {
+            let small = |pairs: bool| -> TextOracle {
+                Box::new(move |x, c, ctx| {
+                    o3::c15(x, c, &o3::C15Opts { singles: true, pairs: pairs && x.len() <= 12 }, ctx)
+                })
+            };
+            let big = |singles: bool| -> fn(&str, &Cfg, &mut Ctx) {
+                if singles {
+                    |x, c, ctx| o3::c15(x, c, &o3::C15Opts { singles: true, pairs: false }, ctx)
+                } else {
+                    |x, c, ctx| o3::c15(x, c, &o3::C15Opts { singles: false, pairs: false }, ctx)
+                }
+            };
+            let c15cfg = [C_QUICK[0], C_QUICK[1], C_QUICK[2]];
+            let lits = |max_lines: usize| {
+                let f = o3::C12Family { max_lines, cfgs: vec![cfg::DEFAULT], quotes: vec![3], positions: vec![0, 4, 5] };
+                let items: Vec<String> = (0..f.len()).map(|i| f.build(i).0).collect();
+                Texts { name: "ml-literals".into(), items }
+            };
+            if quick {
+                vec![
+                    tf("c15", soup(2, GAPS3, &["%", "begin % end"]), &c15cfg[..2], small(true)),
+                    tf("c15", Chars { n: 2 }, &c15cfg[..2], small(true)),
+                    prog_variants("c15", &g(1), 1, &c15cfg[..2], vo_base, big(true)),
+                    seed_texts("c15", &all_seeds(), &c15cfg[..2], big(false)),
+                    tf("c15", lits(1), &c15cfg, small(false)),
+                    tf("c15", Texts { name: "asm-bodies".into(), items: c07_asm_texts(false) }, &c15cfg[..2], small(false)),
+                ]
+            } else {
+                vec![
+                    tf("c15", soup(2, GAPS5, CONTEXTS), &c15cfg, small(true)),
+                    tf("c15", Chars { n: 3 }, &c15cfg[..2], small(true)),
+                    prog_variants("c15", &g(2), 2, &c15cfg[..2], vo_base, big(true)),
+                    prog_variants("c15", &g(1), 1, &c15cfg, vo_cd, big(true)),
+                    seed_texts("c15", &all_seeds(), &C_QUICK, big(true)),
+                    tf("c15", lits(2), &c15cfg, small(false)),
+                    tf("c15", Texts { name: "asm-bodies".into(), items: c07_asm_texts(true) }, &c15cfg, small(false)),
+                ]
+            }
+        }
         "C08" => {
             if quick {
                 vec![
@@ -468,6 +892,7 @@ pub fn families(check: &str, tier: &str) -> Vec<Box<dyn Family>> {
                     tf("c08", Chars { n: 3 }, &C_QUICK[..2], or_c08(false)),
                     prog_variants("c08eof", &g(2), 2, &C_QUICK, vo_base, f_c08_eof),
                     seed_texts("c08eof", &wf_seeds(), &C_QUICK, f_c08_eof),
+                    tf("c08", lit_texts(2), &C_QUICK[..3], or_c08(false)),
                 ]
             } else {
                 vec![
@@ -477,6 +902,8 @@ pub fn families(check: &str, tier: &str) -> Vec<Box<dyn Family>> {
                     prog_variants("c08eof", &g(2), 2, &full, vo_all, f_c08_eof),
                     prog_variants("c08eof", &g(3), 3, &C_QUICK[..2], vo_base, f_c08_eof),
                     seed_texts("c08eof", &wf_seeds(), &full, f_c08_eof),
+                    tf("c08", lit_texts(2), &C_QUICK, or_c08(false)),
+                    seed_mutations("c08", &all_seeds(), &C_QUICK[..2], |x, c, ctx| { let out = ctx.fmt(c, x); o::c08(x, &out, c, &o::C08Opts { eof_clause: false }, ctx); }),
                 ]
             }
         }
@@ -552,10 +979,15 @@ pub fn families(check: &str, tier: &str) -> Vec<Box<dyn Family>> {
             ]
         }
         "C13" => {
+            let near = || Texts { name: "keyword-near-misses".into(), items: NearMisses::all() };
             if quick {
                 vec![
                     tf("c13", Chars { n: 4 }, &one, or_c13()),
                     tf("c13", soup(2, GAPS5, CONTEXTS), &one, or_c13()),
+                    tf("c13words", Words { max_len: 100, max_align: 40 }, &one, or_c13_words()),
+                    tf("c13", KeywordCases, &one, or_c13()),
+                    tf("c13", near(), &one, or_c13()),
+                    tf("c13", lit_texts(1), &one, or_c13()),
                     prog_variants("c13", &g(1), 1, &one, vo_cd, f_c13),
                     seed_texts("c13", &all_seeds(), &one, f_c13),
                 ]
@@ -564,6 +996,10 @@ pub fn families(check: &str, tier: &str) -> Vec<Box<dyn Family>> {
                     tf("c13", Chars { n: 5 }, &one, or_c13()),
                     tf("c13", soup(2, GAPS5, CONTEXTS), &one, or_c13()),
                     tf("c13", soup(3, GAPS3, &["%", "asm % end"]), &one, or_c13()),
+                    tf("c13words", Words { max_len: 200, max_align: 64 }, &one, or_c13_words()),
+                    tf("c13", KeywordCases, &one, or_c13()),
+                    tf("c13", near(), &one, or_c13()),
+                    tf("c13", lit_texts(2), &one, or_c13()),
                     prog_variants("c13", &g(2), 2, &one, vo_cd, f_c13),
                     seed_texts("c13", &all_seeds(), &C_QUICK, f_c13),
                 ]
@@ -614,6 +1050,17 @@ pub fn replay(case: &Value, ctx: &mut Ctx) -> bool {
             o::c08(&input, &out, &c, &o::C08Opts { eof_clause: eof }, ctx);
         }
         "c13" => o::c13(&input, ctx),
+        "c13words" => {
+            o::c13(&input, ctx);
+            o::c13_ident_routines(&input, ctx);
+        }
+        "c07" => o3::c07(&input, case["prefix_len"].as_u64().map(|n| n as usize), &c, ctx),
+        "c12" => o3::c12(&input, &c, ctx),
+        "c15" => {
+            let cur: Vec<u32> = case["cursors"].as_array().map(|a| a.iter().filter_map(|v| v.as_u64()).map(|v| v as u32).collect()).unwrap_or_default();
+            let _ = cur;
+            o3::c15(&input, &c, &o3::C15Opts { singles: true, pairs: input.len() <= 12 }, ctx);
+        }
         "c02" => {
             let out = ctx.fmt(&c, &input);
             o2::c02(&input, &out, &c, ctx);
